@@ -33,7 +33,11 @@ func obligQuery(o *Oblig) string {
 }
 
 func runSolver(s Solver, file string, timeoutSec int) (string, float64) {
-	ctx, cancel := context.WithTimeout(context.Background(), time.Duration(timeoutSec+5)*time.Second)
+	return runSolverCtx(context.Background(), s, file, timeoutSec)
+}
+
+func runSolverCtx(parent context.Context, s Solver, file string, timeoutSec int) (string, float64) {
+	ctx, cancel := context.WithTimeout(parent, time.Duration(timeoutSec+5)*time.Second)
 	defer cancel()
 	args := append(s.Args(timeoutSec), file)
 	cmd := exec.CommandContext(ctx, s.Bin, args...)
@@ -244,9 +248,18 @@ func (e *Engine) solveOne(common, base string, o *Oblig, cfg solveCfg) {
 		secs   float64
 	}
 	ch := make(chan ans, len(solvers))
+	race, stopRace := context.WithCancel(context.Background())
+	defer stopRace() // the first decisive answer (unsat or sat) ends the race
 	for _, s := range solvers {
 		go func(s Solver) {
-			out, secs := runSolver(s, file, cfg.timeoutSec)
+			// the individual portfolio run gets a generous budget (an obligation reaches it only when
+			// the incremental batch could not decide it): a slow or loaded machine must not turn a
+			// provable obligation into an alarm
+			t := cfg.timeoutSec
+			if t < 60 {
+				t = 60
+			}
+			out, secs := runSolverCtx(race, s, file, t)
 			as, _ := parseAnswers(out)
 			a := "unknown"
 			if len(as) > 0 {
@@ -262,8 +275,9 @@ func (e *Engine) solveOne(common, base string, o *Oblig, cfg solveCfg) {
 			best = r
 			break
 		}
-		if r.a == "sat" && best.a != "sat" {
+		if r.a == "sat" {
 			best = r
+			break
 		}
 		if best.solver == "" {
 			best = r
